@@ -45,7 +45,11 @@ static void check_case(vg::Src& s, vh::Ctx& c)
     g_tr.reset();
 
     // ---- decode the history
-    size_t size0 = s.weighted({ 60, 40, 50, 40, 30, 20, 16 }) + 1;  // 1..7
+    size_t size0 = s.weighted({ 70, 16, 60, 50, 30, 16, 14 }) + 1;  // 1..7, mostly 1 -> 2 via the map below
+    if (size0 == 1)
+        size0 = 2;  // simplest interesting pool
+    else if (size0 == 2)
+        size0 = 1;
     if (s.chance(40))
         size0 = 10;  // the size the library uses
     size_t nsess = s.range(1, 5);
@@ -55,7 +59,8 @@ static void check_case(vg::Src& s, vh::Ctx& c)
     {
         Session se;
         se.resize_to = sizes[s.weighted({ 90, 20, 50, 30, 30, 15, 12, 9 })];
-        size_t nr = s.weighted({ 30, 120, 70, 36 });
+        size_t nr = s.weighted({ 120, 16, 80, 40 });
+        nr = nr == 0 ? 1 : (nr == 1 ? 0 : nr);  // mostly 1 run, sometimes none, 2 or 3
         for (size_t r = 0; r < nr; ++r)
         {
             RunSpec rs;
@@ -80,7 +85,29 @@ static void check_case(vg::Src& s, vh::Ctx& c)
     bool classic = !C11_TSAN && s.chance(60);
     std::string plan;
     for (size_t i = 0; i < nrules; ++i)
-        g_tr.rules.push_back(gen_rule(s, true));
+    {
+        Rule r = gen_rule(s, true);
+        // aim at threads that exist in this history (worker ids below the largest pool size)
+        size_t maxw = size0;
+        for (auto& se : sessions)
+            maxw = std::max(maxw, se.resize_to);
+        if (r.tid > 0)
+            r.tid = 1 + (r.tid - 1) % static_cast<int>(maxw);
+        if (r.until_tid > 0)
+            r.until_tid = 1 + (r.until_tid - 1) % static_cast<int>(maxw);
+        // points a thread of that kind actually passes
+        static const int caller_pts[] = { fsv::runtasks_before_store, fsv::runtasks_after_store, fsv::pause_spin, fsv::resume_before_notify, fsv::resume_after_notify, fsv::wait_spin, fsv::stop_before_join, fsv::wait_done, fsv::pause_done };
+        static const int worker_pts[] = { fsv::pausejob_before_lock, fsv::pausejob_after_lock, fsv::pausejob_after_inc, fsv::pausejob_after_wait, fsv::worker_loop, fsv::worker_before_job, fsv::worker_after_job, fsv::worker_after_clear, fsv::worker_exit };
+        if (r.tid == 0)
+            r.point = caller_pts[static_cast<size_t>(r.point) % 9];
+        else if (r.tid > 0)
+            r.point = worker_pts[static_cast<size_t>(r.point) % 9];
+        if (r.until_tid == 0)
+            r.until_point = caller_pts[static_cast<size_t>(r.until_point) % 9];
+        else
+            r.until_point = worker_pts[static_cast<size_t>(r.until_point) % 9];
+        g_tr.rules.push_back(r);
+    }
     if (classic)
     {
         // the order constraint that exposes a notify issued before the wait: a worker holds
